@@ -240,6 +240,15 @@ async fn main() {
         validate_best_block_header(&derefed).await.unwrap()
     };
 
+    // The components are bootstrapped from this block. Persist it if there was no last known block yet, so a restart
+    // before the first new tip is processed resumes from here and not from whatever the best block is by then.
+    if last_known_block.is_none() {
+        dbm.lock()
+            .unwrap()
+            .store_last_known_block(&tip.header.block_hash())
+            .unwrap();
+    }
+
     // DISCUSS: This is not really required (and only triggered in regtest). This is only in place so the caches can be
     // populated with enough blocks mainly because the size of the cache is based on the amount of blocks passed when initializing.
     // However, we could add an additional parameter to specify the size of the cache, and initialize with however may blocks we
